@@ -47,8 +47,15 @@ static void case_powm(ByteSource& in, CaseInfo& ci) {
   // cost bound for the reference square-and-multiply: mod_limbs^2 * exp_bits <= ~3e7
   uint64_t maxbits = (uint64_t)std::min<double>(2200.0, 3e7 / ((double)M.size() * M.size() + 1)); if (maxbits < 8) maxbits = 8; if (ui) maxbits = std::min<uint64_t>(maxbits, 64);
   Int E = gen_exp(in, maxbits);
-  Int B; unsigned bk = in.pick({5, 2, 1, 1, 1});
-  if (bk == 0) B = gen_int(in, M.size() + 2); else if (bk == 1) { B = gen_int(in, M.size() + 2); B = B + M * gen_int(in, 2); } else if (bk == 2) B = Int(0); else if (bk == 3) B = M.abs() - Int(1); else B = M;
+  Int B; unsigned bk = in.pick({5, 2, 1, 1, 1, 2});
+  if (bk == 0) B = gen_int(in, M.size() + 2); else if (bk == 1) { B = gen_int(in, M.size() + 2); B = B + M * gen_int(in, 2); } else if (bk == 2) B = Int(0); else if (bk == 3) B = M.abs() - Int(1); else if (bk == 4) B = M;
+  else { // |base| a little below or above |mod| (the difference has fewer limbs), either sign: reductions of the base that lose several high limbs
+    Int dlt = gen_int(in, std::max<size_t>(1, M.size() > 1 ? (size_t)in.range(1, M.size() - 1) : 1), false); B = in.flag() ? M.abs() - dlt : M.abs() + dlt; if (in.flag() && M.size() > 1) B = ref::tmod(B, ref::pow2(64 * (M.size() - 1)) ) + ref::shl(Int::from_u64(~0ull), 64 * (M.size() - 2));   // or one limb shorter than the modulus with an all-ones top limb
+    if (in.flag()) B = -B; ci.label("base_near_modulus");
+    if (M.size() >= 3 && in.chance(100)) {   // modulus just above a power of the limb base, base just below that power: mod - |base| loses two or more limbs
+      size_t n = M.size(); Int s2 = gen_int(in, (size_t)in.range(1, n - 2), false), d2 = gen_int(in, n - 2, false) + s2 + Int(1); if (d2.size() > n - 2) d2 = ref::tmod(d2, ref::pow2(64 * (n - 2))) ; if (!(d2 > s2)) d2 = s2 + Int(1);
+      bool mneg = M.neg; M = ref::pow2(64 * (n - 1)) + s2; B = M - d2; if (mneg) M = -M; if (in.chance(200)) B = -B; ci.label("mod_minus_base_loses_limbs"); }
+    if (in.flag()) E = Int((long long)in.range(1, 3)); }
   bool negexp = !ui && in.chance(40) && ref::cmpabs(M, Int(1)) > 0 && !E.is_zero();
   if (negexp) { if (!(ref::gcd(B, M) == Int(1))) { // make base invertible: search nearby
       bool ok = false; for (int i = 0; i < 50 && !ok; i++) { B = B + Int(1); if (ref::gcd(B, M) == Int(1)) ok = true; } if (!ok) negexp = false; } }
@@ -101,5 +108,5 @@ static void check(ByteSource& in, CaseInfo& ci) { unsigned k = in.pick({6, 4, 1}
 namespace eng {
 PropDef g_prop = {"C08",
   "Cases: mpz_powm / mpz_powm_ui (base of any sign and size incl. 0, |mod|-1, mod, larger than mod; exponent 0,1,.. with patterns all-ones / single bit / alternating / runs; modulus odd, even with 2-adic valuation 1..256 incl. whole zero low limbs, power of two, +-1, 2, negative; sizes around REDC_1/REDC_2/REDC_N/POWM thresholds and, in 1 of 6 cases, up to 720 limbs around BINV_NEWTON_THRESHOLD and twice it; mpn_binvert called directly (n up to 2600 limbs, r*u = 1 mod B^n, scratch guard); negative exponent only with gcd(base,mod)=1 and |mod|>1; result aliasing base/exp/mod) and mpz_pow_ui / mpz_ui_pow_ui (0^0, (+-1)^e with huge e, (+-2^k)^e, negative bases, results up to the scale cap). Oracle: refint square-and-multiply with refint division; result in [0,|mod|). Cost bound mod_limbs^2*exp_bits <= 3e7 (a bound on generated size, not on time). Non-trivial: exponent >= 2 bits and modulus >= 2 limbs / result >= 2 limbs. Distinct = hash of all decoded choices.",
-  check, nullptr, {"mod:odd", "mod:even", "mod:even_zero_low_limb", "mod:pow2", "mod:one", "negative_exponent", "mod_ge_redc_2", "mod_ge_redc_n", "mod_ge_powm_threshold", "zero_pow_zero", "neg_base_odd_exp", "base_gt_mod", "mpn_binvert", "binvert:newton"}};
+  check, nullptr, {"mod:odd", "mod:even", "mod:even_zero_low_limb", "mod:pow2", "mod:one", "negative_exponent", "mod_ge_redc_2", "mod_ge_redc_n", "mod_ge_powm_threshold", "zero_pow_zero", "neg_base_odd_exp", "base_gt_mod", "mpn_binvert", "binvert:newton", "base_near_modulus", "mod_minus_base_loses_limbs"}};
 }
